@@ -19,12 +19,13 @@ VInf = {"k": "float", "q": 0, "sp": "inf"}
 VNegInf = {"k": "float", "q": 0, "sp": "-inf"}
 VNan = {"k": "float", "q": 0, "sp": "nan"}
 
-UNRELATED = [VNone, VBool(True), VInt(0), VInt(7), VFloat(0), VStr([]), VStr([122]), VBytes([]),
+UNRELATED = [VNone, VBool(True), VBool(False), VInt(0), VInt(7), VFloat(0), VFloat(100), VStr([]), VStr([122]), VBytes([]),
              VList([]), VDict([]), {"k": "uuid", "ver": 4, "id": 0}, {"k": "datetime", "dt": 0},
              {"k": "date", "d": 0}]
 EXTRA_KEYS = [VStr([122, 122]), VInt(7), VNone]
 
-ZOO = [VInf, VNegInf, VNan, VFloat(200000), VInt(2000), VInt(-2000), VInt(3000), {"k": "uuid", "ver": 1, "id": 0}] + \
+ZOO = [VInf, VNegInf, VNan, VFloat(200000), VInt(2000), VInt(-2000), VInt(3000), {"k": "uuid", "ver": 1, "id": 0},
+       {"k": "uuid", "ver": 0, "id": 0}] + \
       [VObj(c, [], []) for c in ("tuple0", "tuple12", "set1", "frozenset1", "bytearray_ab", "Decimal1",
                                  "Fraction12", "complex1", "range3", "object_a", "uuidlike", "type_int",
                                  "notimplemented")] + \
@@ -33,7 +34,7 @@ ZOO = [VInf, VNegInf, VNan, VFloat(200000), VInt(2000), VInt(-2000), VInt(3000),
        VObj("MyList", ["list"], [VList([VInt(1)])]),
        VObj("MyDict", ["dict"], [VDict([KV(VStr([97]), VInt(1))])]),
        VObj("OrderedDict", ["dict"], [VDict([KV(VStr([97]), VInt(1))])])]
-ZOO_KEYS = [VObj("tuple12", [], []), VObj("frozenset1", [], []), VInt(2000), VNone,
+ZOO_KEYS = [VNan, VObj("tuple12", [], []), VObj("frozenset1", [], []), VInt(2000), VNone,
             VObj("object_a", [], []), VBool(True), VFloat(50), VBytes([97])]
 
 
@@ -78,8 +79,18 @@ def _key_eq(a, b):
     return a == b
 
 
+def subclassed(v):
+    if v["k"] == "list":
+        return [VObj("MyList", ["list"], [v])]
+    if v["k"] == "dict":
+        ps = v["pairs"]
+        return [VObj("DefaultDict", ["dict"], [v])] + \
+            [VObj("DefaultDict", ["dict"], [VDict(ps[:i] + ps[i + 1:])]) for i in range(len(ps))]
+    return []
+
+
 def mutants(v, repl, keys):
-    out = list(repl) + local(v)
+    out = list(repl) + local(v) + subclassed(v)
     if v["k"] == "list":
         it = v["items"]
         for i in range(len(it)):
@@ -104,6 +115,8 @@ def mutants(v, repl, keys):
             for y in free:
                 if x != y:
                     out.append(VDict(ps + [KV(x, VNone), KV(y, VNone)]))
+        if VNan in keys:
+            out.append(VDict(ps + [KV(VNan, VNone), KV(VNan, VNone)]))
         for i in range(len(ps)):
             for m in mutants(ps[i]["val"], repl, keys):
                 out.append(VDict(ps[:i] + [KV(ps[i]["key"], m)] + ps[i + 1:]))
